@@ -1145,13 +1145,23 @@ where
         // Drop the most significant bits up to the desired length, but make sure
         // they encode 0.
         let nb_bits = nb_bits.unwrap_or(K::NUM_BITS as usize);
-        bits[nb_bits..]
+        let nb_kept = min(nb_bits, bits.len());
+        bits[nb_kept..]
             .iter()
             .try_for_each(|byte| self.native_gadget.assert_equal_to_fixed(layouter, byte, false))?;
-        let bits = bits[0..nb_bits].to_vec();
-        if enforce_canonical && nb_bits >= K::NUM_BITS as usize {
-            let canonical = self.is_canonical(layouter, &bits)?;
+        let mut bits = bits[0..nb_kept].to_vec();
+        if enforce_canonical && nb_kept >= K::NUM_BITS as usize {
+            let (low, high) = bits.split_at(K::NUM_BITS as usize);
+            high.iter().try_for_each(|bit| {
+                self.native_gadget.assert_equal_to_fixed(layouter, bit, false)
+            })?;
+            let canonical = self.is_canonical(layouter, low)?;
             self.assert_equal_to_fixed(layouter, &canonical, true)?;
+        }
+        // Pad with zeros when more bits than the limbs can hold were requested.
+        if nb_bits > nb_kept {
+            let zero: AssignedBit<F> = self.native_gadget.assign_fixed(layouter, false)?;
+            bits.resize(nb_bits, zero);
         }
         Ok(bits)
     }
